@@ -14,15 +14,17 @@ def modules(A, B):
     protos = {i + 1: f["name"] for i, f in enumerate(fa)}
     L = ["m1: module", " import ext_i", "p_ext: proto i64, i64:id, i64:v"]
     for f in fa[1:]:
-        L.append("p_%s: proto %s" % (f["name"], ", ".join(list(f["res"]) + ["%s:a%d" % (t, i) for i, t in enumerate(f["params"])])))
-    L.append(" export " + ", ".join(f["name"] for f in fa[1:]))
+        L.append(progs.proto_line(f))
+    L.append("gdat: bss 64")
+    L.append(" forward " + ", ".join(f["name"] for f in fa[1:]))
+    L.append(" export gdat, " + ", ".join(f["name"] for f in fa[1:]))
     for i, f in list(enumerate(fa))[1:]:
         L.append(progs.render_func(i, f, protos))
     L.append(" endmodule")
-    L += ["m2: module", " import ext_i, ext_cb, " + ", ".join(f["name"] for f in fa[1:]),
+    L += ["m2: module", " import ext_i, ext_cb, gdat, " + ", ".join(f["name"] for f in fa[1:]),
           "p_ext: proto i64, i64:id, i64:v", "p_cb: proto i64, i64:id, p:f, i64:v"]
     for f in fa[1:]:
-        L.append("p_%s: proto %s" % (f["name"], ", ".join(list(f["res"]) + ["%s:a%d" % (t, i) for i, t in enumerate(f["params"])])))
+        L.append(progs.proto_line(f))
     L.append(" export eA, eB")
     for nm, fs in (("eA", fa), ("eB", fb)):
         body = progs.render_func(0, fs[0], protos)
